@@ -63,6 +63,37 @@ struct Log {
     count: u64,
     clones: Vec<Value>,
     hint_consistent: bool,
+    fin: &'static str,
+    fin_items: Vec<Value>,
+}
+/// one step of a word: direction ('n' front / 'b' back) and skip (-1: next()/next_back(); k >= 0: nth(k)/nth_back(k))
+pub type Step = (char, i64);
+fn step<T, I: DoubleEndedIterator<Item = T>>(it: &mut I, st: Step) -> Option<T> {
+    match st {
+        ('n', k) if k < 0 => it.next(),
+        ('n', k) => it.nth(k as usize),
+        (_, k) if k < 0 => it.next_back(),
+        (_, k) => it.nth_back(k as usize),
+    }
+}
+/// how the rest of the iterator is consumed after the word, chosen by the word itself (deterministic)
+fn fin_of(word: &[Step]) -> &'static str {
+    let h = word.iter().fold(word.len() as i64, |a, s| a.wrapping_mul(31).wrapping_add(s.0 as i64 * 7 + s.1));
+    ["count", "last", "fold", "rfold"][(h.rem_euclid(4)) as usize]
+}
+fn finish<T: Item, I: DoubleEndedIterator<Item = T>>(it: I, fin: &str, lg: &mut Log) {
+    match fin {
+        "count" => lg.count = it.count() as u64,
+        "last" => lg.fin_items = vec![item_json(it.last().map(|x| x.kv()))],
+        "fold" => lg.fin_items = it.fold(vec![], |mut a, x| {
+            a.push(json!(x.kv()));
+            a
+        }),
+        _ => lg.fin_items = it.rfold(vec![], |mut a, x| {
+            a.push(json!(x.kv()));
+            a
+        }),
+    }
 }
 
 fn hint_of<I: Iterator + ExactSizeIterator>(it: &I, ok: &mut bool) -> u64 {
@@ -74,26 +105,28 @@ fn hint_of<I: Iterator + ExactSizeIterator>(it: &I, ok: &mut bool) -> u64 {
 }
 
 /// shared-reference families: Clone is available
-fn run_shared<T: Item, I: DoubleEndedIterator<Item = T> + ExactSizeIterator + Clone>(mut it: I, word: &str) -> Log {
-    let mut lg = Log { yields: vec![], hints: vec![], count: 0, clones: vec![], hint_consistent: true };
+fn run_shared<T: Item, I: DoubleEndedIterator<Item = T> + ExactSizeIterator + Clone>(mut it: I, word: &[Step]) -> Log {
+    let mut lg = Log { yields: vec![], hints: vec![], count: 0, clones: vec![], hint_consistent: true, fin: fin_of(word), fin_items: vec![] };
     let drain = |c: I| -> Value { Value::Array(c.map(|x| json!(x.kv())).collect()) };
     lg.hints.push(hint_of(&it, &mut lg.hint_consistent));
     lg.clones.push(drain(it.clone()));
-    for ch in word.chars() {
-        let y = if ch == 'n' { it.next() } else { it.next_back() };
+    for &st in word {
+        let y = step(&mut it, st);
         lg.yields.push(item_json(y.map(|x| x.kv())));
         lg.hints.push(hint_of(&it, &mut lg.hint_consistent));
         lg.clones.push(drain(it.clone()));
     }
-    lg.count = it.count() as u64;
+    let fin = lg.fin;
+    finish(it, fin, &mut lg);
     lg
 }
 /// mutable families: every yielded value is written through the reference
-fn run_mut<T: Item, I: DoubleEndedIterator<Item = T> + ExactSizeIterator>(mut it: I, word: &str) -> Log {
-    let mut lg = Log { yields: vec![], hints: vec![], count: 0, clones: vec![], hint_consistent: true };
+fn run_mut<T: Item, I: DoubleEndedIterator<Item = T> + ExactSizeIterator>(mut it: I, word: &[Step]) -> Log {
+    // (the rest of a mutable iterator is consumed without writing: count / last / fold / rfold only read)
+    let mut lg = Log { yields: vec![], hints: vec![], count: 0, clones: vec![], hint_consistent: true, fin: fin_of(word), fin_items: vec![] };
     lg.hints.push(hint_of(&it, &mut lg.hint_consistent));
-    for ch in word.chars() {
-        let y = if ch == 'n' { it.next() } else { it.next_back() };
+    for &st in word {
+        let y = step(&mut it, st);
         lg.yields.push(item_json(y.map(|mut x| {
             let kv = x.kv();
             x.write();
@@ -101,7 +134,8 @@ fn run_mut<T: Item, I: DoubleEndedIterator<Item = T> + ExactSizeIterator>(mut it
         })));
         lg.hints.push(hint_of(&it, &mut lg.hint_consistent));
     }
-    lg.count = it.count() as u64;
+    let fin = lg.fin;
+    finish(it, fin, &mut lg);
     lg
 }
 
@@ -121,26 +155,57 @@ pub const FAMILIES: [(&str, &str, &str, bool); 12] = [
 ];
 
 /// the words run on a list of length n
-fn words(n: usize, all: bool) -> Vec<String> {
+fn words(n: usize, all: bool) -> Vec<Vec<Step>> {
     let m = n + 2;
-    let mut w = vec![];
+    let plain = |c: char| (c, -1i64);
+    let mut w: Vec<Vec<Step>> = vec![];
     if all {
+        // every word of plain steps up to length n + 2 ...
         for len in 0..=m {
             for bits in 0..(1u32 << len) {
-                w.push((0..len).map(|i| if bits >> i & 1 == 0 { 'n' } else { 'b' }).collect());
+                w.push((0..len).map(|i| plain(if bits >> i & 1 == 0 { 'n' } else { 'b' })).collect());
+            }
+        }
+        // ... and every word of length <= 2 over steps with skips 0..n (nth / nth_back), then one plain step from each end
+        let toks: Vec<Step> = ['n', 'b'].iter().flat_map(|&c| (0..=(n as i64).min(3)).map(move |k| (c, k))).collect();
+        for &a in &toks {
+            w.push(vec![a]);
+            w.push(vec![a, plain('n'), plain('b')]);
+            for &b in &toks {
+                w.push(vec![a, b]);
+                w.push(vec![a, b, plain('b'), plain('n')]);
             }
         }
     } else {
-        w.push("n".repeat(m));
-        w.push("b".repeat(m));
-        w.push((0..m).map(|i| if i % 2 == 0 { 'n' } else { 'b' }).collect());
-        w.push((0..m).map(|i| if i % 2 == 0 { 'b' } else { 'n' }).collect());
-        w.push((0..m).map(|i| if i < m / 2 { 'n' } else { 'b' }).collect());
-        w.push(String::new());
+        w.push(vec![plain('n'); m]);
+        w.push(vec![plain('b'); m]);
+        w.push((0..m).map(|i| plain(if i % 2 == 0 { 'n' } else { 'b' })).collect());
+        w.push((0..m).map(|i| plain(if i % 2 == 0 { 'b' } else { 'n' })).collect());
+        w.push((0..m).map(|i| plain(if i < m / 2 { 'n' } else { 'b' })).collect());
+        w.push(vec![]);
+        // skips: into the near half, just past the middle, to the last entry, one past the end
+        let n = n as i64;
+        let mut ks = vec![0, 1, n / 2, n / 2 + 1, n - 2, n - 1, n, n + 1];
+        ks.retain(|&k| k >= 0);
+        ks.sort();
+        ks.dedup();
+        for &k in &ks {
+            for c in ['n', 'b'] {
+                let o = if c == 'n' { 'b' } else { 'n' };
+                w.push(vec![(c, k)]);
+                w.push(vec![(c, k), plain(c), plain(o)]);
+                w.push(vec![plain(o), (c, k), plain(c)]);
+                w.push(vec![(c, k / 2), (o, k / 2), plain(c), plain(o)]);
+                w.push(vec![(c, 1), (c, k), (c, 0)]);
+            }
+        }
     }
     w.sort();
     w.dedup();
     w
+}
+fn word_json(w: &[Step]) -> Value {
+    Value::Array(w.iter().map(|s| json!([s.0.to_string(), s.1])).collect())
 }
 
 /// The content of one inner list read WITHOUT any iterator: the verification hook walks the `next` pointers, the key of
@@ -160,7 +225,7 @@ fn witness<E: caches::OnEvictCallback, S: std::hash::BuildHasher>(l: &RawLRU<TK,
 trait IterSut: Sut<TK> {
     const LISTS: &'static [&'static str];
     fn witness(&self, list: &str) -> Vec<Value>;
-    fn run(&mut self, list: &str, fam: &str, word: &str) -> Option<(Log, usize, Vec<Value>)>;
+    fn run(&mut self, list: &str, fam: &str, word: &[Step]) -> Option<(Log, usize, Vec<Value>)>;
     fn list_len(&self, list: &str) -> usize;
 }
 
@@ -194,7 +259,7 @@ impl IterSut for Raw<TK> {
     fn witness(&self, _: &str) -> Vec<Value> {
         witness(self)
     }
-    fn run(&mut self, _list: &str, fam: &str, word: &str) -> Option<(Log, usize, Vec<Value>)> {
+    fn run(&mut self, _list: &str, fam: &str, word: &[Step]) -> Option<(Log, usize, Vec<Value>)> {
         let lg = match fam {
             "into_iter" => run_shared((&*self).into_iter(), word),
             "into_iter_mut" => run_mut((&mut *self).into_iter(), word),
@@ -220,7 +285,7 @@ impl IterSut for TwoQ<TK> {
             _ => self.ghost_len(),
         }
     }
-    fn run(&mut self, list: &str, fam: &str, word: &str) -> Option<(Log, usize, Vec<Value>)> {
+    fn run(&mut self, list: &str, fam: &str, word: &[Step]) -> Option<(Log, usize, Vec<Value>)> {
         let lg = match list {
             "recent" => fam_dispatch!(fam, word, self, recent_iter, recent_iter_lru, recent_keys, recent_keys_lru, recent_values, recent_values_lru,
                 recent_iter_mut, recent_iter_lru_mut, recent_values_mut, recent_values_lru_mut),
@@ -256,7 +321,7 @@ impl IterSut for Arc<TK> {
             _ => self.frequent_evict_len(),
         }
     }
-    fn run(&mut self, list: &str, fam: &str, word: &str) -> Option<(Log, usize, Vec<Value>)> {
+    fn run(&mut self, list: &str, fam: &str, word: &[Step]) -> Option<(Log, usize, Vec<Value>)> {
         let lg = match list {
             "recent" => fam_dispatch!(fam, word, self, recent_iter, recent_iter_lru, recent_keys, recent_keys_lru, recent_values, recent_values_lru,
                 recent_iter_mut, recent_iter_lru_mut, recent_values_mut, recent_values_lru_mut),
@@ -301,35 +366,51 @@ fn run_kind<S: IterSut>(a: &crate::Args) -> Value {
     let mut out = crate::exec::ShardWriter::new(a.get("out").map(|x| x.to_string()), a.num("shard", 0));
     let (mut states, mut events, mut panics, mut nontrivial) = (0u64, 0u64, 0u64, 0u64);
     let mut by: std::collections::BTreeMap<String, u64> = Default::default();
+    let mut paths: Vec<Vec<Value>> = vec![];
+    let mut ops: Vec<Value> = vec![];
     for line in input.lines() {
         let line = line.unwrap();
-        let Some(v) = tlc_payload(&line, "STATE") else { continue };
-        if states >= max_states {
+        if let Some(v) = tlc_payload(&line, "OPS") {
+            ops = v["ops"].as_array().cloned().unwrap_or_default();
+            ops.sort_by_key(|o| o.to_string());
             continue;
         }
+        let Some(v) = tlc_payload(&line, "STATE") else { continue };
+        if (paths.len() as u64) < max_states {
+            paths.push(v["path"].as_array().cloned().unwrap_or_default());
+        }
+    }
+    // larger lists: states reached by seeded random histories over the specification's alphabet (--random n,len,seed)
+    if let Some(r) = a.get("random") {
+        let p: Vec<u64> = r.split(',').map(|x| x.parse().expect("--random n,len,seed")).collect();
+        let mut rng = crate::exec::Rng(p[2].wrapping_mul(0x9E37_79B9_7F4A_7C15) | 1);
+        for _ in 0..p[0] {
+            paths.push(crate::exec::random_hist(&ops, p[1] as usize, &mut rng));
+        }
+    }
+    for path in paths {
         states += 1;
-        let path = v["path"].as_array().cloned().unwrap_or_default();
         let Some(probe) = catch_unwind(AssertUnwindSafe(|| replay::<S>(&cfg, &env, &path))).ok().flatten() else { continue };
         out.boundary();
         for list in S::LISTS {
             let n = probe.list_len(list);
             let wit = probe.witness(list);
             for (fam, kind, proj, mutable) in FAMILIES {
-                for word in words(n, all_words) {
+                for word in words(n, all_words && n <= 4) {
                     // every run starts from a freshly replayed state (mutable families write)
                     let Some(mut c) = replay::<S>(&cfg, &env, &path) else { continue };
                     let r = catch_unwind(AssertUnwindSafe(|| c.run(list, fam, &word)));
                     let rec = match r {
                         Ok(Some((lg, len, aft))) => json!({
                             "op": "iter", "path": path, "list": list, "fam": fam, "kind": kind, "proj": proj, "mutable": mutable,
-                            "word": word.chars().map(|c| c.to_string()).collect::<Vec<_>>(),
+                            "word": word_json(&word), "fin": lg.fin, "fin_items": lg.fin_items,
                             "yields": lg.yields, "hints": lg.hints, "count": lg.count, "clones": lg.clones, "len": len,
                             "hint_consistent": lg.hint_consistent, "after": aft, "witness": wit, "panic": false}),
                         Ok(None) => continue, // family does not exist for this type (into_iter on composite lists)
                         Err(_) => {
                             panics += 1;
                             json!({"op":"iter","path":path,"list":list,"fam":fam,"kind":kind,"proj":proj,"mutable":mutable,
-                                   "word": word.chars().map(|c| c.to_string()).collect::<Vec<_>>(),"panic":true,
+                                   "word": word_json(&word), "fin": "count", "fin_items": [], "panic":true,
                                    "yields":[],"hints":[],"count":0,"clones":[],"len":0,"after":[],"witness":wit,"hint_consistent":false})
                         }
                     };
@@ -337,7 +418,7 @@ fn run_kind<S: IterSut>(a: &crate::Args) -> Value {
                     if n >= 2 {
                         nontrivial += 1;
                     }
-                    *by.entry(format!("{fam}:len{}", n.min(4))).or_insert(0) += 1;
+                    *by.entry(format!("{fam}:len{}", n.min(9))).or_insert(0) += 1;
                     out.line(&rec);
                 }
             }
